@@ -245,61 +245,62 @@ Section ScanFacts.
              destruct last as [nm0|]; [|discriminate].
              assert (Hlam : is_name "lambda" t = true).
              { unfold is_name. rewrite Hname. destruct (Hkw _ Hin) as [E|E]; rewrite E in *; [reflexivity|discriminate]. }
-             apply IH in Hscan; auto.
-             ++ destruct Hscan as (R1 & R2 & R3 & R4). repeat split; auto.
-                intros j tj Hj Hn Hl. destruct (Nat.eq_dec j i) as [->|Hne].
-                ** left. cbn in R3. destruct R3 as (c & Hc & Hcs & _). exists c; auto.
-                ** apply (R4 j tj); auto; lia.
-             ++ cbn. repeat split; auto.
-                ** exists t. auto.
-                ** unfold ext_stop. rewrite Hr. reflexivity.
-                ** discriminate.
-          -- apply IH in Hscan; auto.
-             ++ destruct Hscan as (R1 & R2 & R3 & R4). repeat split; auto.
-                apply Hnotl; auto.
-                destruct (is_name "lambda" t) eqn:Hl; auto.
-                rewrite (lambda_in_kw _ Hl) in Hin. discriminate.
-             ++ cbn. apply seek_name; auto.
-             ++ cbn. intros c Hc. specialize (Hlim c Hc). lia.
-        * apply IH in Hscan; auto.
-          -- destruct Hscan as (R1 & R2 & R3 & R4). repeat split; auto.
-             apply Hnotl; auto. unfold is_name. rewrite Hname. reflexivity.
-          -- cbn. eapply seek_other; eauto.
-          -- cbn. intros c Hc. specialize (Hlim c Hc). lia.
+             assert (Hminv : mode_inv (Ext (Some nm0) i (trow t) 0 0 0 false) (S i)).
+             { cbn [mode_inv]. split; [lia|]. split; [exists t; auto|].
+               split; [unfold ext_stop; rewrite Hr; reflexivity|]. split; [exact Hm | discriminate]. }
+             apply (IH _ _ _ _ Hr Hminv Hgood Hlim) in Hscan.
+             destruct Hscan as (R1 & R2 & R3 & R4). split; [auto|]. split; [auto|]. split; [exact I|].
+             intros j tj Hj Hn Hl. destruct (Nat.eq_dec j i) as [->|Hne].
+             ++ left. cbn in R3. destruct R3 as (c & Hc & Hcs & _). exists c; auto.
+             ++ apply (R4 j tj); auto; lia.
+          -- assert (Hminv : mode_inv (First (Some (ttext t))) (S i)) by (cbn; apply seek_name; auto).
+             assert (Hlim' : forall c0, In c0 cs -> c_start c0 < lim (First (Some (ttext t))) (S i)).
+             { cbn. intros c0 Hc. specialize (Hlim c0 Hc). lia. }
+             apply (IH _ _ _ _ Hr Hminv Hgood Hlim') in Hscan.
+             destruct Hscan as (R1 & R2 & R3 & R4). split; [auto|]. split; [auto|]. split; [exact I|].
+             apply Hnotl; auto.
+             destruct (is_name "lambda" t) eqn:Hl; auto.
+             rewrite (lambda_in_kw _ Hl) in Hin. discriminate.
+        * assert (Hminv : mode_inv (First last) (S i)) by (cbn; eapply seek_other; eauto).
+          assert (Hlim' : forall c0, In c0 cs -> c_start c0 < lim (First last) (S i)).
+          { cbn. intros c0 Hc. specialize (Hlim c0 Hc). lia. }
+          apply (IH _ _ _ _ Hr Hminv Hgood Hlim') in Hscan.
+          destruct Hscan as (R1 & R2 & R3 & R4). split; [auto|]. split; [auto|]. split; [exact I|].
+          apply Hnotl; auto. unfold is_name. rewrite Hname. reflexivity.
       + (* Seek *)
         cbn [mode_inv lim] in *.
         destruct (is_kind KName t) eqn:Hname.
         * destruct (String.eqb (ttext t) "lambda") eqn:Hl.
           -- assert (Hlam : is_name "lambda" t = true) by (unfold is_name; rewrite Hname, Hl; reflexivity).
-             apply IH in Hscan; auto.
-             ++ destruct Hscan as (R1 & R2 & R3 & R4). repeat split; auto.
-                intros j tj Hj Hn Hl'. destruct (Nat.eq_dec j i) as [->|Hne].
-                ** left. cbn in R3. destruct R3 as (c & Hc & Hcs & _). exists c; auto.
-                ** apply (R4 j tj); auto; lia.
-             ++ cbn. repeat split; auto.
-                ** exists t. auto.
-                ** unfold ext_stop. rewrite Hr. reflexivity.
-                ** discriminate.
-          -- apply IH in Hscan; auto.
-             ++ destruct Hscan as (R1 & R2 & R3 & R4). repeat split; auto.
-                apply Hnotl; auto. unfold is_name. rewrite Hname, Hl. reflexivity.
-             ++ cbn. apply seek_name; auto.
-             ++ cbn. intros c Hc. specialize (Hlim c Hc). lia.
+             assert (Hminv : mode_inv (Ext last i (trow t) 0 0 0 false) (S i)).
+             { cbn [mode_inv]. split; [lia|]. split; [exists t; auto|].
+               split; [unfold ext_stop; rewrite Hr; reflexivity|]. split; [exact Hm | discriminate]. }
+             apply (IH _ _ _ _ Hr Hminv Hgood Hlim) in Hscan.
+             destruct Hscan as (R1 & R2 & R3 & R4). split; [auto|]. split; [auto|]. split; [exact I|].
+             intros j tj Hj Hn Hl'. destruct (Nat.eq_dec j i) as [->|Hne].
+             ++ left. cbn in R3. destruct R3 as (c & Hc & Hcs & _). exists c; auto.
+             ++ apply (R4 j tj); auto; lia.
+          -- assert (Hminv : mode_inv (Seek (Some (ttext t))) (S i)) by (cbn; apply seek_name; auto).
+             assert (Hlim' : forall c0, In c0 cs -> c_start c0 < lim (Seek (Some (ttext t))) (S i)).
+             { cbn. intros c0 Hc. specialize (Hlim c0 Hc). lia. }
+             apply (IH _ _ _ _ Hr Hminv Hgood Hlim') in Hscan.
+             destruct Hscan as (R1 & R2 & R3 & R4). split; [auto|]. split; [auto|]. split; [exact I|].
+             apply Hnotl; auto. unfold is_name. rewrite Hname, Hl. reflexivity.
         * destruct (is_kind KNewline t) eqn:Hnl.
           -- (* NEWLINE ends the logical line *)
-             inversion Hscan; subst res. repeat split; auto.
-             ++ apply Forall_rev; auto.
-             ++ intros c Hc. apply in_rev1. auto.
-             ++ intros j tj Hj Hn Hl. destruct (Nat.eq_dec j i) as [->|Hne].
-                ** rewrite Hnth in Hn. inversion Hn; subst tj.
-                   apply is_name_kind in Hl. destruct Hl as [Hl _]. congruence.
-                ** right. right. exists i, t. repeat split; auto; [lia | apply newline_is_nl; auto |].
-                   intros c Hc. apply in_rev2 in Hc. auto.
-          -- apply IH in Hscan; auto.
-             ++ destruct Hscan as (R1 & R2 & R3 & R4). repeat split; auto.
-                apply Hnotl; auto. unfold is_name. rewrite Hname. reflexivity.
-             ++ cbn. eapply seek_other; eauto.
-             ++ cbn. intros c Hc. specialize (Hlim c Hc). lia.
+             assert (Hres : res = rev cs) by congruence. subst res. clear Hscan.
+             split; [apply Forall_rev; auto|]. split; [intros c Hc; apply in_rev1; auto|]. split; [exact I|].
+             intros j tj Hj Hn Hl. destruct (Nat.eq_dec j i) as [->|Hne].
+             ++ rewrite Hnth in Hn. inversion Hn; subst tj.
+                apply is_name_kind in Hl. destruct Hl as [Hl _]. congruence.
+             ++ right. right. exists i, t. split; [lia|]. split; [auto|]. split; [apply newline_is_nl; auto|].
+                intros c Hc. apply in_rev2 in Hc. auto.
+          -- assert (Hminv : mode_inv (Seek last) (S i)) by (cbn; eapply seek_other; eauto).
+             assert (Hlim' : forall c0, In c0 cs -> c_start c0 < lim (Seek last) (S i)).
+             { cbn. intros c0 Hc. specialize (Hlim c0 Hc). lia. }
+             apply (IH _ _ _ _ Hr Hminv Hgood Hlim') in Hscan.
+             destruct Hscan as (R1 & R2 & R3 & R4). split; [auto|]. split; [auto|]. split; [exact I|].
+             apply Hnotl; auto. unfold is_name. rewrite Hname. reflexivity.
       + (* Ext *)
         destruct Hm as (Hst & (t0 & Ht0 & Hl0 & Hrow) & Hext & Hkey & Hsaw).
         cbn [lim] in Hlim. rewrite Hsk in Hext. cbn [ext_from] in Hext.
@@ -310,54 +311,302 @@ Section ScanFacts.
           assert (Hg : good cn).
           { exists t0. cbn. repeat split; auto. }
           apply andb_true_iff in Hstop. destruct Hstop as [Hstop _].
+          remember (cn :: cs) as cs' eqn:Hcs'.
+          assert (Hin : In cn cs') by (subst cs'; left; auto).
+          assert (Hgood' : Forall good cs') by (subst cs'; constructor; auto).
           destruct saw.
-          -- remember (cn :: cs) as cs' eqn:Hcs'.
-             assert (Hres : res = rev cs') by congruence. subst res. clear Hk.
-             assert (Hin : In cn cs') by (subst cs'; left; auto).
+          -- assert (Hres : res = rev cs') by congruence. subst res. clear Hk.
              destruct (Hsaw eq_refl) as (e & te & He & Hte & Hnle).
-             repeat split; auto.
-             ++ apply Forall_rev. subst cs'. constructor; auto.
-             ++ intros c0 Hc. apply in_rev1. subst cs'. right; auto.
-             ++ cbn. exists cn. split; [apply in_rev1; auto|]. cbn. split; auto.
-             ++ intros j tj Hj Hn Hl. right. right. exists e, te. repeat split; auto; [lia|].
-                intros c0 Hc. apply in_rev2 in Hc. subst cs'. destruct Hc as [<-|Hc].
-                ** cbn. lia.
-                ** specialize (Hlim c0 Hc). lia.
-          -- apply IH in Hk; auto.
-             ++ destruct Hk as (R1 & R2 & R3 & R4). repeat split; auto.
-                ** intros c0 Hc. apply R2. right; auto.
-                ** cbn. exists cn. split; [apply R2; left; auto|]. cbn. split; auto.
-                ** intros j tj Hj Hn Hl. destruct (Nat.eq_dec j i) as [->|Hne].
-                   --- right. left. exists cn. split; [apply R2; left; auto|]. cbn. lia.
-                   --- apply (R4 j tj); auto; lia.
-             ++ cbn. eapply seek_after_stop; eauto.
-             ++ constructor; auto.
-             ++ cbn. intros c0 [<-|Hc]; [cbn; lia|]. specialize (Hlim c0 Hc). lia.
+             split; [apply Forall_rev; auto|].
+             split; [intros c0 Hc; apply in_rev1; subst cs'; right; auto|].
+             split; [cbn; exists cn; split; [apply in_rev1; auto | cbn; split; auto]|].
+             intros j tj Hj Hn Hl. right. right. exists e, te. split; [lia|]. split; [auto|]. split; [auto|].
+             intros c0 Hc. apply in_rev2 in Hc. subst cs'. destruct Hc as [<-|Hc].
+             ++ cbn. lia.
+             ++ specialize (Hlim c0 Hc). lia.
+          -- assert (Hminv : mode_inv (Seek None) (S i)) by (cbn; eapply seek_after_stop; eauto).
+             assert (Hlim' : forall c0, In c0 cs' -> c_start c0 < lim (Seek None) (S i)).
+             { cbn. subst cs'. intros c0 [<-|Hc]; [cbn; lia|]. specialize (Hlim c0 Hc). lia. }
+             apply (IH _ _ _ _ Hr Hminv Hgood' Hlim') in Hk.
+             destruct Hk as (R1 & R2 & R3 & R4). split; [auto|].
+             split; [intros c0 Hc; apply R2; subst cs'; right; auto|].
+             split; [cbn; exists cn; split; [apply R2; auto | cbn; split; auto]|].
+             intros j tj Hj Hn Hl. destruct (Nat.eq_dec j i) as [->|Hne].
+             ++ right. left. exists cn. split; [apply R2; auto|]. cbn. lia.
+             ++ apply (R4 j tj); auto; lia.
         * (* inside the extent *)
-          assert (Hcover : forall res', ext_open (Ext key st row (p + dpar t) (b + dbrk t) (c + dbrc t) saw) (S i) res' ->
+          assert (Hcover : forall sw res', ext_open (Ext key st row (p + dpar t) (b + dbrk t) (c + dbrc t) sw) (S i) res' ->
                                         reach (S i) res' ->
                                         ext_open (Ext key st row p b c saw) i res' /\ reach i res').
-          { intros res' (c0 & Hc0 & Hs0 & Hle0) Hre. split.
-            - exists c0. repeat split; auto. lia.
+          { intros sw res' (c0 & Hc0 & Hs0 & Hle0) Hre. split.
+            - exists c0. split; [auto|]. split; [auto|lia].
             - intros j tj Hj Hn Hl. destruct (Nat.eq_dec j i) as [->|Hne].
               + right. left. exists c0. split; auto. lia.
               + apply (Hre j tj); auto; lia. }
+          assert (Hminv : forall sw, (sw = true -> saw = true \/ is_nl t = true) ->
+                                     mode_inv (Ext key st row (p + dpar t) (b + dbrk t) (c + dbrc t) sw) (S i)).
+          { intros sw Hsw. cbn [mode_inv]. split; [lia|]. split; [exists t0; auto|].
+            split; [rewrite Hr; exact Hext|]. split; [exact Hkey|].
+            intros Hs. destruct (Hsw Hs) as [Hs'|Hs'].
+            - destruct (Hsaw Hs') as (e & te & He & Hte & Hnle). exists e, te. split; [lia|]. auto.
+            - exists i, t. split; [lia|]. auto. }
           destruct (is_kind KComment t) eqn:Hcm.
-          -- apply IH in Hscan; auto.
-             ++ destruct Hscan as (R1 & R2 & R3 & R4). destruct (Hcover res R3 R4). repeat split; auto.
-             ++ cbn. repeat split; auto.
-                ** exists t0; auto.
-                ** rewrite Hr. exact Hext.
-                ** intros Hs. destruct (Hsaw Hs) as (e & te & He & Hte & Hnle). exists e, te. repeat split; auto; lia.
-          -- apply IH in Hscan; auto.
-             ++ destruct Hscan as (R1 & R2 & R3 & R4).
-                assert (R3' : ext_open (Ext key st row (p + dpar t) (b + dbrk t) (c + dbrc t) saw) (S i) res) by exact R3.
-                destruct (Hcover res R3' R4). repeat split; auto.
-             ++ cbn. repeat split; auto.
-                ** exists t0; auto.
-                ** rewrite Hr. exact Hext.
-                ** intros Hs. apply orb_true_iff in Hs. destruct Hs as [Hs|Hs].
-                   --- destruct (Hsaw Hs) as (e & te & He & Hte & Hnle). exists e, te. repeat split; auto; lia.
-                   --- exists i, t. repeat split; auto.
+          -- apply (IH _ _ _ _ Hr (Hminv saw (fun H => or_introl H)) Hgood Hlim) in Hscan.
+             destruct Hscan as (R1 & R2 & R3 & R4). destruct (Hcover saw res R3 R4). auto.
+          -- assert (Hsw : (saw || is_nl t) = true -> saw = true \/ is_nl t = true) by (apply orb_true_iff).
+             apply (IH _ _ _ _ Hr (Hminv _ Hsw) Hgood Hlim) in Hscan.
+             destruct Hscan as (R1 & R2 & R3 & R4). destruct (Hcover _ res R3 R4). auto.
   Qed.
 End ScanFacts.
+
+(* ------------------------------------------------------------------ the backing-up loop *)
+Lemma backup_some : forall P kw streams s0 s r,
+    backup P kw streams s0 = (s, Some r) ->
+    s0 <= s /\ (forall k, r <> ScNoName k) /\
+    exists toks, nth_error streams (s - s0) = Some toks /\ scan_stream P kw toks = r.
+Proof.
+  intros P kw. induction streams as [|ts more IH]; intros s0 s r H; cbn [backup] in H; [discriminate|].
+  destruct (scan_stream P kw ts) eqn:E;
+    try (inversion H; subst; split; [lia|]; split; [discriminate|];
+         exists ts; rewrite Nat.sub_diag; split; [reflexivity | exact E]).
+  apply IH in H. destruct H as (Hle & Hnn & toks & Hn & Hs). split; [lia|]. split; [auto|].
+  exists toks. split; auto. replace (s - s0) with (S (s - S s0)) by lia. exact Hn.
+Qed.
+
+Lemma keywords_ok : forall kwfix is_lam, kwfix = false \/ is_lam = true ->
+    (forall x, existsb (String.eqb x) (keywords kwfix is_lam) = true -> x = "lambda" \/ x = "def")
+    /\ existsb (String.eqb "lambda") (keywords kwfix is_lam) = true.
+Proof.
+  intros kwfix is_lam H. unfold keywords.
+  assert (Hx : forall x l, existsb (String.eqb x) l = true -> exists y, In y l /\ x = y).
+  { intros x l Hl. apply existsb_exists in Hl. destruct Hl as (y & Hy & E). apply String.eqb_eq in E. eauto. }
+  assert (Hgo : forall l, (forall y, In y l -> y = "lambda" \/ y = "def") ->
+                          forall x, existsb (String.eqb x) l = true -> x = "lambda" \/ x = "def").
+  { intros l Hl x Hx'. apply Hx in Hx'. destruct Hx' as (y & Hy & ->). auto. }
+  destruct kwfix, is_lam; try (destruct H; discriminate); (split; [apply Hgo; cbn; intuition | reflexivity]).
+Qed.
+
+(* ------------------------------------------------------------------ safety *)
+Lemma not_nested_spec : forall toks k0 k' t,
+    not_nestedb toks k0 = true -> k' < k0 -> nth_error toks k' = Some t -> is_name "lambda" t = true ->
+    ext_stop toks k' < k0.
+Proof.
+  intros toks k0 k' t H Hlt Hn Hl. unfold not_nestedb in H. rewrite forallb_forall in H.
+  specialize (H k'). unfold is_lambda_at in H. rewrite Hn, Hl in H.
+  apply Nat.ltb_lt. apply H. apply in_seq. lia.
+Qed.
+
+Theorem never_picks_neighbour_gen :
+  forall kwfix is_lam P streams L dsrc caller args s k toks k0,
+    kwfix = false \/ is_lam = true ->
+    find_gen true kwfix P streams L is_lam dsrc (Some caller) args = Found s k ->
+    nth_error streams s = Some toks ->
+    rows_okb toks = true ->
+    lambda_atb P toks k0 L caller args = true ->
+    not_nestedb toks k0 = true ->
+    k = k0.
+Proof.
+  intros kwfix is_lam P streams L dsrc caller args s k toks k0 Hkwf Hfind Hnth Hrows Hat Hnest.
+  destruct (keywords_ok kwfix is_lam Hkwf) as [Hkw HkwL].
+  unfold find_gen in Hfind.
+  destruct (backup P (keywords kwfix is_lam) streams 0) as [s' o] eqn:Hb.
+  destruct o as [r|]; [|discriminate].
+  destruct (backup_some _ _ _ _ _ _ Hb) as (_ & _ & toks' & Hn' & Hscan).
+  rewrite Nat.sub_0_r in Hn'.
+  destruct r as [cs| | | |]; try discriminate.
+  2:{ exfalso. destruct dsrc as [b|e]; cbn [def_outcome] in Hfind; try discriminate.
+      destruct (filter not_doc b) as [|x [|y l']]; try discriminate; destruct x; discriminate. }
+  apply select_found in Hfind. destruct Hfind as (-> & c & Hc & Hck & Hkey & Hargs & Hrow & Huniq).
+  rewrite Hnth in Hn'. inversion Hn'; subst toks'. clear Hn'.
+  unfold scan_stream in Hscan.
+  assert (Hinv0 : mode_inv toks (First None) 0) by (intros nm H; cbn in H; discriminate).
+  assert (Hlim0 : forall c0 : cand, In c0 [] -> c_start c0 < lim (First None) 0) by (intros c0 []).
+  destruct (scan_sound P _ toks Hkw HkwL toks (First None) 0 [] cs eq_refl Hinv0 (Forall_nil _) Hlim0 Hscan)
+    as (Hgood & _ & _ & Hreach).
+  rewrite Forall_forall in Hgood.
+  (* the passed lambda *)
+  unfold lambda_atb in Hat. apply andb_true_iff in Hat. destruct Hat as [Hat Hparse].
+  apply andb_true_iff in Hat. destruct Hat as [Htok Hcall].
+  destruct (nth_error toks k0) as [t0|] eqn:Ht0; [|discriminate].
+  apply andb_true_iff in Htok. destruct Htok as [Hlam0 Hrow0]. apply Nat.eqb_eq in Hrow0.
+  (* the returned candidate *)
+  destruct (Hgood c Hc) as (tc & Htc & Hlc & Hrc & Hsc & Hpc & Hkc).
+  specialize (Hrow eq_refl). unfold on_row in Hrow. apply Nat.eqb_eq in Hrow.
+  destruct (Hreach k0 t0 (Nat.le_0_l _) Ht0 Hlam0) as [(c0 & Hc0 & Hs0) | [(c1 & Hc1 & Hcov) | (e & te & He & Hte & Hnl & Hbefore)]].
+  - (* the passed lambda is a candidate: it passes every filter, so it is the unique one *)
+    destruct (Hgood c0 Hc0) as (t0' & Ht0' & _ & Hr0 & Hst0 & Hp0 & Hk0).
+    rewrite Hs0 in *. rewrite Ht0 in Ht0'. inversion Ht0'; subst t0'.
+    assert (E : c0 = c).
+    { apply Huniq; auto.
+      - unfold called_byb in Hcall. destruct (key_before toks k0) as [nm|] eqn:Ekb; [|discriminate].
+        unfold key_is. rewrite (Hk0 nm eq_refl). exact Hcall.
+      - unfold args_are. rewrite Hp0, Hst0. exact Hparse.
+      - intros _. unfold on_row. rewrite Hr0, Hrow0. apply Nat.eqb_refl. }
+    subst c0. congruence.
+  - (* covered by an earlier lambda's extent: excluded by not_nested *)
+    exfalso. destruct (Hgood c1 Hc1) as (t1 & Ht1 & Hl1 & _ & Hst1 & _).
+    assert (ext_stop toks (c_start c1) < k0) by (eapply not_nested_spec; eauto; lia).
+    lia.
+  - (* the scan ended at a line break before the passed lambda: the returned candidate would be on an earlier row *)
+    exfalso. specialize (Hbefore c Hc).
+    destruct (rows_ok_lt toks (c_start c) e tc te Hrows Hbefore Htc Hte) as [H1 _].
+    destruct (rows_ok_lt toks e k0 te t0 Hrows He Hte Ht0) as [_ H2]. specialize (H2 Hnl). lia.
+Qed.
+
+Theorem never_picks_neighbour :
+  forall P streams L dsrc caller args s k toks k0,
+    find P streams L true dsrc (Some caller) args = Found s k ->
+    nth_error streams s = Some toks ->
+    rows_okb toks = true ->
+    lambda_atb P toks k0 L caller args = true ->
+    not_nestedb toks k0 = true ->
+    k = k0.
+Proof.
+  intros P streams L dsrc caller args s k toks k0. unfold find.
+  apply never_picks_neighbour_gen. right. reflexivity.
+Qed.
+
+(* two lambdas of the scanned region that both look like the passed one: nothing is returned *)
+Theorem raises_when_ambiguous :
+  forall P streams L dsrc caller args toks k1 k2,
+    k1 <> k2 ->
+    rows_okb toks = true ->
+    lambda_atb P toks k1 L caller args = true -> not_nestedb toks k1 = true ->
+    lambda_atb P toks k2 L caller args = true -> not_nestedb toks k2 = true ->
+    forall s k, nth_error streams s = Some toks ->
+                find P streams L true dsrc (Some caller) args <> Found s k.
+Proof.
+  intros P streams L dsrc caller args toks k1 k2 Hne Hrows H1 N1 H2 N2 s k Hn Hf.
+  assert (k = k1) by (eapply never_picks_neighbour; eauto).
+  assert (k = k2) by (eapply never_picks_neighbour; eauto).
+  congruence.
+Qed.
+
+(* ------------------------------------------------------------------ lambda vs def *)
+Lemma scan_lambda_not_def : forall P whole ts m i cs,
+    scan P ["lambda"] whole m i ts cs <> ScDef.
+Proof.
+  intros P whole. induction ts as [|t r IH]; intros m i cs; cbn [scan].
+  - destruct m; try discriminate. unfold close. destruct (P _); discriminate.
+  - destruct (is_kind KErr t); [discriminate|].
+    destruct m as [last|last|key st row p b c saw].
+    + destruct (is_kind KName t); [|apply IH].
+      cbn [existsb]. destruct (String.eqb (ttext t) "lambda") eqn:E; cbn [orb]; [|apply IH].
+      apply String.eqb_eq in E. rewrite E. cbn. destruct last; [apply IH | discriminate].
+    + destruct (is_kind KName t).
+      * destruct (String.eqb (ttext t) "lambda"); apply IH.
+      * destruct (is_kind KNewline t); [discriminate | apply IH].
+    + destruct (is_stop t && zero3 p b c).
+      * unfold close. destruct (P _); try discriminate; destruct saw; try discriminate; apply IH.
+      * destruct (is_kind KComment t); apply IH.
+Qed.
+
+Lemma select_not_def : forall rf L caller args s cs, select rf L caller args s cs <> FoundDef.
+Proof.
+  intros. unfold select.
+  destruct (match caller with Some nm => filter (key_is nm) _ | None => _ end); [discriminate|].
+  destruct (existsb no_lambda _); [discriminate|].
+  destruct (filter (args_are args) _) as [|x [|y l']]; discriminate.
+Qed.
+
+Theorem lambda_never_def :
+  forall P streams L dsrc caller args, find P streams L true dsrc caller args <> FoundDef.
+Proof.
+  intros P streams L dsrc caller args. unfold find, find_gen. cbn [keywords].
+  destruct (backup P ["lambda"] streams 0) as [s o] eqn:Hb.
+  destruct o as [r|]; [|discriminate].
+  destruct (backup_some _ _ _ _ _ _ Hb) as (_ & _ & toks & _ & Hs).
+  destruct r; try discriminate.
+  - apply select_not_def.
+  - exfalso. unfold scan_stream in Hs. eapply scan_lambda_not_def; eauto.
+Qed.
+
+Lemma scan_def_first : forall P whole ts last i cs,
+    match scan P ["def"] whole (First last) i ts cs with
+    | ScDone _ | ScNoName _ => False
+    | _ => True
+    end.
+Proof.
+  intros P whole. induction ts as [|t r IH]; intros last i cs; cbn [scan]; [exact I|].
+  destruct (is_kind KErr t); [exact I|].
+  destruct (is_kind KName t); [|apply IH].
+  cbn [existsb]. destruct (String.eqb (ttext t) "def") eqn:E; cbn [orb]; [exact I | apply IH].
+Qed.
+
+Theorem def_never_lambda :
+  forall P streams L dsrc caller args s k, find P streams L false dsrc caller args <> Found s k.
+Proof.
+  intros P streams L dsrc caller args s k. unfold find, find_gen. cbn [keywords].
+  destruct (backup P ["def"] streams 0) as [s' o] eqn:Hb.
+  destruct o as [r|]; [|discriminate].
+  destruct (backup_some _ _ _ _ _ _ Hb) as (_ & _ & toks & _ & Hs).
+  unfold scan_stream in Hs. pose proof (scan_def_first P toks toks None 0 []) as Hd. rewrite Hs in Hd.
+  destruct r; try discriminate; try contradiction.
+  destruct dsrc as [b|e]; cbn [def_outcome]; try discriminate.
+  destruct (filter not_doc b) as [|x [|y l']]; try discriminate; destruct x; discriminate.
+Qed.
+
+(* ------------------------------------------------------------------ totality *)
+Definition no_err_toks (ts : list tok) : bool := forallb no_err ts.
+
+Lemma scan_no_crash : forall P kw whole,
+    (forall x, exists a, P x = PArgs a) ->
+    forall ts m i cs, no_err_toks ts = true ->
+      Forall (fun c => exists a, c_parse c = PArgs a) cs ->
+      match scan P kw whole m i ts cs with
+      | ScCrash _ => False
+      | ScDone res => Forall (fun c => exists a, c_parse c = PArgs a) res
+      | _ => True
+      end.
+Proof.
+  intros P kw whole HP. induction ts as [|t r IH]; intros m i cs Hne Hcs; cbn [scan].
+  - destruct m; auto.
+    + apply Forall_rev; auto.
+    + unfold close. destruct (HP (extent whole start i)) as [a ->]. apply Forall_rev. constructor; [cbn; eauto | auto].
+  - cbn [no_err_toks forallb] in Hne. apply andb_true_iff in Hne. destruct Hne as [Ht Hr].
+    unfold no_err in Ht. destruct (is_kind KErr t); [discriminate|].
+    destruct m as [last|last|key st row p b c saw].
+    + destruct (is_kind KName t); [|apply IH; auto].
+      destruct (existsb (String.eqb (ttext t)) kw); [|apply IH; auto].
+      destruct (String.eqb (ttext t) "def"); [exact I|]. destruct last; [apply IH; auto | exact I].
+    + destruct (is_kind KName t).
+      * destruct (String.eqb (ttext t) "lambda"); apply IH; auto.
+      * destruct (is_kind KNewline t); [apply Forall_rev; auto | apply IH; auto].
+    + destruct (is_stop t && zero3 p b c).
+      * unfold close. destruct (HP (extent whole st i)) as [a ->].
+        assert (Hcs' : Forall (fun c0 => exists a0, c_parse c0 = PArgs a0)
+                              ({| c_key := key; c_start := st; c_stop := i; c_row := row; c_parse := PArgs a |} :: cs))
+          by (constructor; [cbn; eauto | auto]).
+        destruct saw; [apply Forall_rev; auto | apply IH; auto].
+      * destruct (is_kind KComment t); apply IH; auto.
+Qed.
+
+Theorem finder_total :
+  forall P streams L is_lam dsrc caller args,
+    (forall x, exists a, P x = PArgs a) ->
+    forallb no_err_toks streams = true ->
+    (forall e, dsrc <> DSExc e) ->
+    forall c, find P streams L is_lam dsrc caller args <> Crash c.
+Proof.
+  intros P streams L is_lam dsrc caller args HP Hne Hd c. unfold find, find_gen.
+  destruct (backup P (keywords true is_lam) streams 0) as [s o] eqn:Hb.
+  destruct o as [r|]; [|discriminate].
+  destruct (backup_some _ _ _ _ _ _ Hb) as (_ & _ & toks & Hn & Hs).
+  assert (Htoks : no_err_toks toks = true).
+  { rewrite forallb_forall in Hne. apply Hne. eapply nth_error_In; eauto. }
+  pose proof (scan_no_crash P (keywords true is_lam) toks HP toks (First None) 0 [] Htoks (Forall_nil _)) as Hsc.
+  unfold scan_stream in Hs. rewrite Hs in Hsc.
+  destruct r as [cs| | | |]; try discriminate; try contradiction.
+  - unfold select.
+    set (search := match caller with Some nm => filter (key_is nm) (filter (on_row L) cs) | None => filter (on_row L) cs end).
+    assert (Hsearch : forall x, In x search -> In x cs).
+    { intros x Hx. unfold search in Hx. destruct caller; repeat (apply filter_In in Hx; destruct Hx as [Hx _]); auto. }
+    assert (Hnl : existsb no_lambda search = false).
+    { apply not_true_is_false. intros Hex. apply existsb_exists in Hex. destruct Hex as (x & Hx & Hnl).
+      rewrite Forall_forall in Hsc. destruct (Hsc x (Hsearch x Hx)) as [a Ha].
+      unfold no_lambda in Hnl. rewrite Ha in Hnl. discriminate. }
+    clearbody search. destruct search as [|c0 rest] eqn:Es; [discriminate|]. rewrite <- Es in *.
+    rewrite Hnl. destruct (filter (args_are args) search) as [|x [|y l']]; discriminate.
+  - destruct dsrc as [b|e]; cbn [def_outcome]; [|exfalso; eapply Hd; eauto].
+    destruct (filter not_doc b) as [|x [|y l']]; try discriminate; destruct x; discriminate.
+Qed.
